@@ -62,6 +62,14 @@ func fieldCases() []fieldCase {
 		{Name: "automap_ptr", Decls: in + "type PFXOut struct {\n\tName string\n\tLast *string\n\tStreet *string\n}\n", Src: "PFXIn", Tgt: "PFXOut",
 			Lines: []string{"autoMap PN"},
 			Pairs: map[string]*PairSpec{"PFXIn→PFXOut": {Fields: map[string]*FieldSpec{"Last": fs("PN", "Last"), "Street": fs("PN", "Street")}}}},
+		// fields promoted through an embedded pointer are no fields of the source struct itself: not matched by name
+		// (under ignoreMissing they stay unset) - and never read through a nil embedded pointer
+		{Name: "path_embedded_pointer_promoted_fields", Decls: "type PFXPerson struct {\n\tName string\n\tTags []string\n}\ntype PFXIn struct {\n\t*PFXPerson\n\tID int\n}\ntype PFXOut struct {\n\tID int\n\tName string\n\tTags []string\n}\n", Src: "PFXIn", Tgt: "PFXOut",
+			Lines: []string{"ignoreMissing"},
+			Pairs: map[string]*PairSpec{"PFXIn→PFXOut": {IgnoreMissing: true}}},
+		{Name: "path_embedded_pointer_promoted_fields_elem", Decls: "type PFXPerson struct {\n\tName string\n}\ntype PFXIn struct {\n\t*PFXPerson\n\tID int\n}\ntype PFXOut struct {\n\tID int\n\tName string\n}\n", Src: "[]*PFXIn", Tgt: "[]*PFXOut",
+			Conv:  []string{"ignoreMissing"},
+			Pairs: map[string]*PairSpec{"PFXIn→PFXOut": {IgnoreMissing: true}}},
 		// one source pointer read by several target fields: every read keeps its own nil check
 		{Name: "path_same_pointer_twice", Decls: "type PFXIs struct{ A int }\ntype PFXIt struct{ A int }\ntype PFXIn struct {\n\tNick *string\n\tP *PFXIs\n\tL *[]int\n}\ntype PFXOut struct {\n\tNick *string\n\tAlias *string\n\tThird *string\n\tP *PFXIt\n\tP2 *PFXIt\n\tL *[]int\n\tL2 *[]int\n}\n", Src: "PFXIn", Tgt: "PFXOut",
 			Lines: []string{"map Nick Alias", "map Nick Third", "map P P2", "map L L2"},
@@ -236,6 +244,18 @@ func fieldCases() []fieldCase {
 		{Name: "no_leak_to_other_source_same_target_ignore", Decls: "type PFXS struct {\n\tName string\n\tOld PFXR\n}\ntype PFXR struct{ Name string }\ntype PFXT struct {\n\tName string\n\tOld *PFXT\n}\n", Src: "PFXS", Tgt: "*PFXT",
 			Conv: []string{"ignoreMissing"}, Lines: []string{"ignore Name"},
 			Pairs: map[string]*PairSpec{"PFXS→PFXT": {IgnoreMissing: true, Fields: map[string]*FieldSpec{"Name": {Ignore: true}}}, "PFXR→PFXT": {IgnoreMissing: true}}},
+		// two declared methods for one struct pair that differ in pointers only, BOTH with field settings: the
+		// pointer method would call the value method and lose its own settings - reported
+		{Name: "fail_overlap_both_methods_have_settings", Decls: "type PFXIn struct {\n\tName string\n\tEmail string\n\tPassword string\n}\ntype PFXOut struct {\n\tName string\n\tEmail string\n\tPassword string\n}\n", Src: "*PFXIn", Tgt: "*PFXOut",
+			Lines: []string{"ignore Password"}, Extra: "\t// goverter:ignore Email\n\tPFXInner(source PFXIn) PFXOut\n",
+			Fail: "field settings on a *S -> *T method that a declared S -> T method (with settings of its own) bypasses"},
+		{Name: "fail_overlap_both_methods_have_settings_value_target", Decls: "type PFXIn struct {\n\tName string\n\tEmail string\n}\ntype PFXOut struct {\n\tName string\n\tEmail string\n}\n", Src: "PFXIn", Tgt: "*PFXOut",
+			Lines: []string{"ignore Name"}, Extra: "\t// goverter:map Name Email\n\tPFXInner(source PFXIn) PFXOut\n",
+			Fail: "field settings on a S -> *T method that a declared S -> T method (with settings of its own) bypasses"},
+		// ... and the settings are back in force for the fields declared after the nested conversion
+		{Name: "settings_in_force_after_nested_other_source", Decls: "type PFXS struct {\n\tTitle string\n\tPrev []PFXR\n\tSecret string\n\tLate string\n}\ntype PFXR struct {\n\tName string\n\tSecret string\n\tZ string\n}\ntype PFXT struct {\n\tName string\n\tPrev []PFXT\n\tSecret string\n\tZ string\n}\n", Src: "*PFXS", Tgt: "*PFXT",
+			Conv: []string{"ignoreMissing"}, Lines: []string{"map Title Name", "ignore Secret", "map Late Z"},
+			Pairs: map[string]*PairSpec{"PFXS→PFXT": {IgnoreMissing: true, Fields: map[string]*FieldSpec{"Name": fs("Title"), "Secret": {Ignore: true}, "Z": fs("Late")}}, "PFXR→PFXT": {IgnoreMissing: true}}},
 		// two settings for one target field contradict each other: reported, not resolved silently
 		{Name: "fail_field_mapped_twice", Decls: "type PFXIn struct {\n\tA string\n\tB string\n}\ntype PFXOut struct{ X string }\n", Src: "PFXIn", Tgt: "PFXOut",
 			Lines: []string{"map A X", "map B X"}, Fail: "two goverter:map lines for one target field"},
